@@ -15,7 +15,7 @@ use std::time::UNIX_EPOCH;
 pub const META: Meta = Meta {
     id: "C14",
     level: "exploration",
-    rule: "Two-request histories, enumerated: entity ETag {absent, strong, weak, strong with ', '} x mtime {absent, epoch, whole second, +1 ms, +1 ns, 1 ns before the next second, now + 1 day, year 2200} x entity header sets {none, one, three incl. a duplicate name} x first request {plain, single Range, unsatisfiable Range, If-None-Match: *, failing If-Match, Range + matching If-Range, multi-range falling back to 200 with and without matching If-Range, multipart with If-Range, Range + non-matching If-Range} x second request echoing each of the 32 subsets of {ETag->If-None-Match, Last-Modified->If-Modified-Since, strong ETag->If-Match, Last-Modified->If-Unmodified-Since, strong ETag->If-Range + Range}; proptest for other mtimes, tags and header sets. Oracle: header invariants on response 1 (Accept-Ranges, ETag identity, Date/Last-Modified relation, entity headers present/absent by status) and the cache-friendly answer to request 2. Non-trivial = sub-second or future mtime, or >= 2 validators echoed; distinct by fingerprint of history.",
+    rule: "Two-request histories, enumerated: entity ETag {absent, strong, weak, strong with ', '} x mtime {absent, epoch, whole second, +1 ms, +1 ns, 1 ns before the next second, now + 1 day, year 2200} x entity header sets {none, one, three incl. a duplicate name} x first request {plain, single Range, unsatisfiable Range, If-None-Match: *, failing If-Match, Range + matching If-Range, multi-range falling back to 200 with and without matching If-Range, multipart with If-Range, Range + non-matching If-Range} x second request echoing each of the 32 subsets of {ETag->If-None-Match, Last-Modified->If-Modified-Since, strong ETag->If-Match, Last-Modified->If-Unmodified-Since, strong ETag->If-Range + Range}; proptest for other mtimes, tags and header sets. For multipart 206 answers without If-Range every part must carry every entity header and value. Oracle: header invariants on response 1 (Accept-Ranges, ETag identity, Date/Last-Modified relation, entity headers present/absent by status) and the cache-friendly answer to request 2. Non-trivial = sub-second or future mtime, or >= 2 validators echoed; distinct by fingerprint of history.",
     assumptions: &[
         "for modification times in the future the round trip is demanded only when the served Date did not move between the two requests (history re-run up to 3 times, otherwise counted as skipped)",
         "multipart 206 headers are C06's subject",
@@ -135,6 +135,50 @@ fn check_first(h: &Hist, ent: &EntitySpec, r1: &RespHead, with_if_range: bool) -
     Ok(())
 }
 
+/// A multipart 206 without If-Range carries the entity's headers in every part (the top-level
+/// Content-Type is the multipart one): every header, every value.
+fn check_multipart_parts(ent: &EntitySpec, req: &ReqSpec, acc: &mut Acc) -> Check {
+    if req.method != "GET" || req.has("if-range") {
+        return Ok(());
+    }
+    let Ok(s) = serve_case(ent, req, DrainOpts { extra_polls: 0, max_bytes: 1 << 20, ..Default::default() }) else { return Ok(()) };
+    if s.trace.panicked().is_some() {
+        return Ok(());
+    }
+    let view = crate::served::interpret(&s, ent, false);
+    let crate::served::Kind::Multi { ranges: Some(_), truncated: false, .. } = &view.kind else {
+        acc.count("multipart-not-examined");
+        return Ok(());
+    };
+    // values are compared modulo surrounding whitespace (a header line cannot carry it)
+    fn trim(v: &[u8]) -> Vec<u8> {
+        let mut v = v;
+        while let [b' ' | b'\t', rest @ ..] = v {
+            v = rest;
+        }
+        while let [rest @ .., b' ' | b'\t'] = v {
+            v = rest;
+        }
+        v.to_vec()
+    }
+    let mut want: Vec<(String, Vec<u8>)> = ent.headers.iter().map(|(k, v)| (k.to_ascii_lowercase(), trim(&v.0))).collect();
+    want.sort();
+    for (i, ph) in view.part_headers.iter().enumerate() {
+        let mut have: Vec<(String, Vec<u8>)> = ph.iter().map(|(k, v)| (k.to_ascii_lowercase(), trim(v))).collect();
+        have.sort();
+        ensure!(
+            have == want,
+            "entity-headers-missing:206-multipart",
+            "part {i} of the multipart answer carries {:?}, the entity supplies {:?}; request {:?}",
+            have.iter().map(|(k, v)| (k.clone(), crate::util::show_bytes(v))).collect::<Vec<_>>(),
+            want.iter().map(|(k, v)| (k.clone(), crate::util::show_bytes(v))).collect::<Vec<_>>(),
+            req.headers
+        );
+    }
+    acc.count("multipart-parts-carry-entity-headers");
+    Ok(())
+}
+
 pub fn check(h: &Hist, acc: &mut Acc) -> Check {
     let ent = entity(h);
     let req1 = first_request(h);
@@ -159,6 +203,9 @@ pub fn check(h: &Hist, acc: &mut Acc) -> Check {
         };
         let r1 = &s1.head;
         check_first(h, &ent, r1, with_if_range)?;
+        if attempt == 1 && r1.status == 206 && r1.all("content-type").iter().any(|v| v.starts_with(b"multipart/")) {
+            check_multipart_parts(&ent, &req1, acc)?;
+        }
         // Build the echo.
         let etag = r1.one("etag").ok().flatten().map(|v| v.to_vec());
         let lm = r1.one("last-modified").ok().flatten().map(|v| v.to_vec());
@@ -305,6 +352,9 @@ fn check_any_request(c: &crate::props::c01::Case, acc: &mut Acc) -> Check {
         sig: f.sig,
         msg: format!("{}; request {:?}", f.msg, c.req.headers),
     })?;
+    if s1.head.status == 206 && s1.head.all("content-type").iter().any(|v| v.starts_with(b"multipart/")) {
+        check_multipart_parts(&c.ent, &c.req, acc)?;
+    }
     acc.note(&format!("any-request:{}", s1.head.status), true, fingerprint(c), || json!({"request": c.req, "status": s1.head.status, "headers": s1.head.headers}));
     Ok(())
 }
